@@ -379,18 +379,29 @@ def field_is_const(f, types_by_name):
     return False
 
 
-def gen_fields(draw, opts, types_by_name, used, max_fields):
+def gen_fields(draw, opts, types_by_name, used, max_fields, const_only=False):
     fields = []
     off = 0
     n = draw(st.sampled_from([0, 1] + list(range(1, max_fields + 1)) * 2))
+    if const_only:
+        n = max(1, min(n, 2))
     enum_values = [(t, v) for t in types_by_name.values() if t["kind"] == "enum" for v in t["values"]]
     for _ in range(n):
         fn = _names(draw, used)
         f = {"name": fn, "id": draw(st.sampled_from([0, 1, 2, 3, 100, 65535])), "offset": None, "presence": "required", "value_ref": None}
         choice = draw(st.sampled_from(["prim"] * 3 + (["public"] * 5 if types_by_name else []) + (["primconst"] if enum_values else [])))
+        const_types = sorted(n2 for n2, t2 in types_by_name.items() if t2["kind"] == "type" and t2["presence"] == "constant")
+        if const_only:
+            if not const_types and not enum_values:
+                break
+            choice = draw(st.sampled_from((["consttype"] * 2 if const_types else []) + (["primconst"] if enum_values else [])))
         if choice == "prim":
             f["type"] = draw(st.sampled_from(list(PRIMS)))
             f["presence"] = draw(st.sampled_from(["required", "required", "optional"]))
+        elif choice == "consttype":
+            t = types_by_name[draw(st.sampled_from(const_types))]
+            f["type"] = t["name"]
+            # constant through its type only: no presence attribute on the field
         elif choice == "primconst":
             # constant field over a primitive type with valueRef to an enum value that fits
             t, v = draw(st.sampled_from(enum_values))
@@ -425,7 +436,8 @@ def gen_level(draw, opts, ctx, depth, is_message):
     types_by_name = ctx["types"]
     used = set()
     lvl = {}
-    lvl["fields"], min_bl = gen_fields(draw, opts, types_by_name, used, 5 if is_message else 3)
+    const_only = (not is_message) and draw(st.integers(0, 9)) == 0
+    lvl["fields"], min_bl = gen_fields(draw, opts, types_by_name, used, 5 if is_message else 3, const_only=const_only)
     lvl["min_block_length"] = min_bl
     lvl["block_length"] = None
     if draw(st.integers(0, 3)) == 0:
